@@ -189,6 +189,9 @@ pub fn explore(pool: &Pool, spec: &Spec, kf: &Known) -> Outcome {
                 digest_each: spec.digest_each,
                 want_listing: spec.want_listing,
                 isolate: spec.isolate,
+                trace: false,
+                pre_image: vec![],
+                faults: vec![],
             });
         }
         let root_results = pool.run(root_jobs.clone());
@@ -270,6 +273,9 @@ pub fn explore(pool: &Pool, spec: &Spec, kf: &Known) -> Outcome {
                         digest_each: spec.digest_each,
                         want_listing: spec.want_listing,
                         isolate: spec.isolate,
+                trace: false,
+                pre_image: vec![],
+                faults: vec![],
                     });
                 }
                 let results = pool.run(jobs.clone());
@@ -497,7 +503,7 @@ fn run_probes(
 ) {
     let mk = |jid: &mut u64, ops: Vec<Op>| -> Job {
         *jid += 1;
-        Job { id: *jid, cfg: cfg.clone(), ops, want_digest: false, digest_each: false, want_listing: false, isolate: spec.isolate }
+        Job { id: *jid, cfg: cfg.clone(), ops, want_digest: false, digest_each: false, want_listing: false, isolate: spec.isolate, trace: false, pre_image: vec![], faults: vec![] }
     };
     // (node index, kind, peek index, suffix index)
     #[derive(Clone, Copy, PartialEq)]
@@ -650,6 +656,9 @@ fn run_tails(
                 digest_each: false,
                 want_listing: false,
                 isolate: spec.isolate,
+                trace: false,
+                pre_image: vec![],
+                faults: vec![],
             });
             meta.push((ni, ti));
         }
